@@ -121,7 +121,7 @@ def trees_and_leaves(draw, max_obj, max_sp, min_obj=1, min_sp=1, obj_poly=0, sp_
 # ---------------------------------------------------------------------------
 # costs
 # ---------------------------------------------------------------------------
-HGT = st.sampled_from([0, 1, 2, 3, INF])
+HGT = st.sampled_from([0, 1, 2, 3, INF, 1, 2, 5, 8, INF])
 
 
 @st.composite
@@ -130,6 +130,8 @@ def coherent_costs(draw, labelled=True, maxv=3, huge=True):
     spe <= dup + 2*floss (plain), by construction."""
     if chance(draw, 1, 10):
         return dict(DEFAULT)
+    if maxv == 3 and chance(draw, 1, 8):
+        maxv = 9  # unit costs are arbitrary non-negative integers: one vector in eight ranges up to 9
     dup = draw(st.integers(0, maxv))
     floss = draw(st.integers(0, maxv))
     if labelled:
